@@ -9,7 +9,9 @@
 2. The harness owns a Floodgate-style reference encoder / decoder over crypto/aes,
    cipher.NewGCM, encoding/base64; it builds every case for the real ReadHostname, replaces
    every single byte of valid hostnames (9 replacement values per position), and decodes
-   what the real WriteHostname produces.
+   what the real WriteHostname produces -- also encodings that were kept (uncopied) while
+   later ones were made on the same Floodgate, and hostnames written by several goroutines
+   at the same time.
 3. TLC judges: expected reject => error, expected fields => the typed fields equal the
    record, never a panic; proxy-written hostnames decode under the reference decoder to
    the same fields.
@@ -47,7 +49,8 @@ def run(ctx):
         raise vlib.ToolError("decoder without authenticity check not caught")
     with open(ctx.path("cases.json"), "w") as fh:
         json.dump(cases, fh)
-    ctx.harness("./c39", "TestTrace", env={"VERIF_WRITES": ctx.pick(120, 1200)}, timeout=900)
+    ctx.harness("./c39", "TestTrace", env={"VERIF_WRITES": ctx.pick(120, 1200),
+                                           "VERIF_CONC_WRITES": ctx.pick(40, 400)}, timeout=900)
     st = json.load(open(ctx.path("stats.json")))
     ctx.log("harness: %d reads %s, %d byte mutations (%d aliases), %d writes %s" % (
         st["reads"], st["read_outcomes"], st["byte_mutations"], st["mutations_decoding_to_same_bytes"],
@@ -73,7 +76,7 @@ def run(ctx):
             desc = "hostname with byte %d at position %d (%s part) gave %s %s" % (
                 bad["byte"], bad["pos"], bad["region"], bad["out"], bad.get("msg", ""))
         else:
-            key = "write:%s" % bad["out"]
+            key = "write%s:%s" % (":" + bad["kind"] if bad.get("kind") else "", bad["out"])
             desc = "WriteHostname output is not read back to the same fields by the reference decoder (%s)" % (
                 bad.get("msg") or json.dumps(bad.get("ref"))[:200])
         ctx.finding(key, desc, bad)
@@ -97,6 +100,8 @@ def run(ctx):
         "byte_mutations": st["byte_mutations"],
         "mutation_outcomes": st["mutation_outcomes"],
         "mutations_decoding_to_same_bytes": st["mutations_decoding_to_same_bytes"],
+        "held_encodings_decoded_later": st["held_encodings"],
+        "concurrent_writes": st["concurrent_writes"],
         "writes": st["writes"],
         "write_outcomes": st["write_outcomes"],
         "exhaustive": False,
